@@ -363,3 +363,15 @@ PROPS["C10"] = {
     "assumptions": [],
     "partial": [],
 }
+
+PROPS["C11"] = {
+    "harness": "c11",
+    "props_file": "Props/C11.v",
+    "run_module": "Model.FcSummary Model.RunC10 Model.RunC11",
+    "run_fn": "run_c11",
+    "pinned_theorems": ["C11_api_preservedb_correct", "C11_items_decided", "C11_item_decided", "C11_class_decided",
+                        "C11_member_decided", "C11_fn_decided", "C11_param_decided", "C11_subrel_decided"],
+    "rule": ("PROVISIONAL"),
+    "assumptions": [],
+    "partial": [],
+}
